@@ -5,7 +5,7 @@ use crate::prng::Rng;
 use crate::simalloc::RunCfg;
 use crate::world::NP;
 
-pub const MAX_BITS: usize = if cfg!(miri) { 700 } else { 4000 };
+pub const MAX_BITS: usize = if cfg!(miri) { 330 } else { 4000 };
 
 /// Bit lengths concentrated where hidden representation state changes.
 pub fn gen_bits(rng: &mut Rng, big: bool) -> usize {
@@ -331,7 +331,7 @@ pub fn gen_panic(rng: &mut Rng, sw: &Swarm) -> Op {
         3 => Op::new("u.root").a(a).dst(d).n(0),
         4 => Op::new("i.sqrt").a(a).dst(d),
         5 => Op::new("u.setbit").a(a).n(i64::MAX - rng.below(1000) as i64).m(1),
-        6 => Op::new("u.setbit").a(a).n((1i64 << 40) + gen_bits(rng, sw.big) as i64).m(1),
+        6 if !cfg!(miri) => Op::new("u.setbit").a(a).n((1i64 << 40) + gen_bits(rng, sw.big) as i64).m(1),
         _ => Op::new("m.ring2").a(a).b(b).c(slot(rng)).dst(d).n(rng.below(2) as i64),
     }
 }
